@@ -130,6 +130,13 @@ func (compilation *compilation) generateIteaName() string {
 // declarations that should not be emitted. It also returns a type checking
 // error if the 'itea' identifier of a 'using' statement is not used.
 func (compilation *compilation) finalizeUsingStatements(tc *typechecker) error {
+	return compilation.finalizeUsingStatementsOf(tc, "")
+}
+
+// finalizeUsingStatementsOf is like finalizeUsingStatements but, if path is
+// not empty, finalizes only the 'using' statements of the file path: those
+// of the files that import or render it may still be checked.
+func (compilation *compilation) finalizeUsingStatementsOf(tc *typechecker, path string) error {
 	names := make([]string, 0, len(compilation.iteaToUsingCheck))
 	for name := range compilation.iteaToUsingCheck {
 		names = append(names, name)
@@ -137,6 +144,10 @@ func (compilation *compilation) finalizeUsingStatements(tc *typechecker) error {
 	sort.Strings(names)
 	for _, name := range names {
 		uc := compilation.iteaToUsingCheck[name]
+		if path != "" && uc.path != path {
+			// The statement is in another file, that may still be checked.
+			continue
+		}
 		if !uc.used {
 			return checkError(uc.path, uc.pos, "predeclared identifier itea not used")
 		}
